@@ -48,11 +48,27 @@ def payload(rng, avoid=()):
     return text.encode("latin-1", errors="replace")
 
 
+CPIECES = ["}", "{", '"', "'", "[[", "]]", "$1", "`", "%{", "m4_define", "[", "]", "//", "\\", "don't", " ", "x", "]]]", "[[[", "#", "*", "/ *"]
+COMMENTS = {}          # comments placed in the specification built last, by region kind (read by one())
+
+
+def comment(rng, kind):
+    """a C comment whose text holds delimiters of every other kind; it must reach the output as written"""
+    body = " " + "".join(rng.pick(CPIECES) for _ in range(rng.rng(1, 6))) + " "
+    body = body.replace("*/", "* /").replace("/*", "/ *")
+    text = "/*c%d%s*/" % (len(COMMENTS.setdefault('all', [])), body)
+    COMMENTS['all'].append((kind, text))
+    return text
+
+
 def build_spec(rng, backend, noline_opt, no_reject=False, risky=False):
     """Returns (text, expectations) where expectations[k] = (payload bytes, line number in the .l file, region kind)."""
     exp = {}
     lines = []
     k = [0]
+    COMMENTS.clear()
+    crng = rng.fork("comments")
+    tail_used = [False]
 
     def emit(line):
         lines.append(line)
@@ -76,7 +92,9 @@ def build_spec(rng, backend, noline_opt, no_reject=False, risky=False):
         # the payload is spelled inside a C string literal: every byte of it reaches flex's and m4's scanners as written,
         # except " \ ? and non-printing bytes, which C requires to be escaped
         tail = ""
+        tail_used[0] = False
         if kind.startswith("action-multiline") and rng.chance(45):
+            tail_used[0] = True
             # an apostrophe that does not open a one-character constant (a // comment, a wide constant) followed by brackets:
             # flex's action scanner is in its character-constant state there and still has to escape [[ and ]] for m4
             tail = rng.pick([" // don't reorder: a[b[0]] stays", " // it's [[ here", " // isn't ]] there", " // 'q' and then ]] or [[ too",
@@ -120,6 +138,8 @@ def build_spec(rng, backend, noline_opt, no_reject=False, risky=False):
         if rng.chance(40):
             emit("LETTER [a-z]")
             emit("    static int sect1_early_x;")
+    if crng.chance(40):
+        emit(comment(crng, "sect1-comment"))
     # %{ %} block in section 1
     emit("%{")
     emit("static void sect1_block(void) {")
@@ -145,6 +165,8 @@ def build_spec(rng, backend, noline_opt, no_reject=False, risky=False):
     if rng.chance(50):
         kk, st = rec_stmt("sect2-indented")
         put(kk, "    " + st)
+    if crng.chance(30):
+        emit("    " + comment(crng, "sect2-indented-comment"))
     emit("")
     # rules: a..h; each input letter triggers one rule
     letters = "abcdefgh"
@@ -188,7 +210,7 @@ def build_spec(rng, backend, noline_opt, no_reject=False, risky=False):
             kk, st = rec_stmt("action-oneline" + ("-after-bar" if barred else ""))
             for l in pre:
                 emit(l)
-            put(kk, "%s\t{ %s }" % (ch_pat, st))
+            put(kk, "%s\t{ %s %s}" % (ch_pat, st, (comment(crng, "action-oneline-comment") + " ") if crng.chance(30) else ""))
         elif style == "nobrace":
             kk, st = rec_stmt("action-nobrace" + ("-after-bar" if barred else ""))
             for l in pre:
@@ -207,9 +229,11 @@ def build_spec(rng, backend, noline_opt, no_reject=False, risky=False):
                 emit("r\"; (void) spliced; }")
             for _ in range(rng.rng(1, 3)):
                 kk, st = rec_stmt("action-multiline" + ("-after-bar" if barred else ""))
-                put(kk, "        " + st)
+                put(kk, "        " + st + ((" " + comment(crng, "action-multiline-comment")) if crng.chance(30) and not tail_used[0] else ""))
                 if rng.chance(30):
                     emit("")
+            if crng.chance(20):
+                emit("        " + comment(crng, "action-multiline-comment"))
             emit("\t}")
         elif style == "percent":
             for l in pre:
@@ -218,6 +242,10 @@ def build_spec(rng, backend, noline_opt, no_reject=False, risky=False):
             kk, st = rec_stmt("action-percent-brace" + ("-after-bar" if barred else ""))
             put(kk, "        " + st)
             emit("\t%}")
+    if crng.chance(40):
+        emit("zz")                     # a rule without any action: the matched text is discarded
+        if crng.chance(50):
+            emit("    " + comment(crng, "sect2-between-rules-comment"))
     emit(".|\\n\t{ }")
     emit("<<EOF>>\t{")
     kk, st = rec_stmt("eof-action")
@@ -303,6 +331,10 @@ def one(job):
     else:
         esc = lambda n: n.replace("\\", "\\\\").replace('"', '\\"')
         problems += check_linedirs(out_text, esc(out_name), esc(in_name), text.split("\n"))[:3]
+    for ckind, ctext in COMMENTS.get('all', []):
+        if ctext not in out_text:
+            problems.append("a comment (%s) does not reach the output as written: %r" % (ckind, ctext))
+    ncomments = len(COMMENTS.get('all', []))
     cc = ["gcc", "-std=gnu11", "-w", "-D_GNU_SOURCE", "-o", "u.exe", out_name]
     rc, o2, e2 = run(cc, cwd=wd, timeout=120)
     if rc != 0:
